@@ -210,6 +210,9 @@ func treeFlowRules(c *Ctx, g *Gram, ref *precRef, rule string) {
 		called[cl.Name] = true
 	}
 	ctors := parserCtors(c.T, called)
+	for _, cs := range ctors {
+		c.R.Fn(relName(cs.Fn))
+	}
 	for name := range called {
 		if ctors[name] == nil {
 			r.Undecided(rule, "constructor "+name, "pkg/parser/parser.go", "grammar action calls (*parser)."+name+" which was not found (unresolved anchor)")
